@@ -490,6 +490,23 @@ func (j *judge) host(pairs []pairSpec) {
 		offs := vu.Offences(q.V, t, false)
 		conf := len(offs) == 0
 		var ob observed
+		if j.p.Route == "host-arg" && !conf && (steps != 0 || len(got) != 0) {
+			// the callee executed with a non-conforming argument, however the call ended afterwards
+			over := "opt-wrap"
+			for _, o := range offs {
+				if !o.ViaWrap {
+					over = ""
+				}
+			}
+			ob.admitted = true
+			if len(got) > 0 {
+				if seen, err := vu.FromVM(got[0]); err == nil {
+					ob.result = unwrapProbe(t, seen)
+				}
+			}
+			j.decideAttr(q, ob, false, over)
+			continue
+		}
 		switch {
 		case pv != nil:
 			ob.msg = fmt.Sprint(pv)
